@@ -218,6 +218,7 @@ func (e *Engine) initExterns() {
 	e.initAtomics()
 	e.initSyncMap()
 	e.initStringsBuilder()
+	e.initRegexp()
 	e.initHasher()
 	for _, p := range []string{
 		"strings.Contains", "strings.HasPrefix", "strings.HasSuffix", "strings.Index", "strings.IndexByte", "strings.LastIndex",
